@@ -6,7 +6,8 @@
    in the separately named corollary at the end, the only statement here that depends on
    the standard library's axioms for the reals. *)
 From Coq Require Import Qabs.
-From CNV Require Import Base.Prelude Base.Str Gen.CallDefaults Model.Call Spec.Call Proofs.CallNum Proofs.Call Gen.FnCall Proofs.FnCall.
+From CNV Require Import Base.Prelude Base.Str Gen.CallDefaults Model.Call Model.Threshold Model.Baf Spec.Call Proofs.CallNum Proofs.Call
+  Proofs.CallDoCall Gen.FnCall Proofs.FnCall.
 
 Local Open Scope Q_scope.
 
@@ -99,6 +100,105 @@ Theorem C01_nonneg_table :
     length out = length rows /\ Forall (fun o => (0 <= cn_of o)%Z) out.
 Proof. exact nonneg_table. Qed.
 
+(* ------------------------------------------------------------------------------------
+   do_call end to end (Model/Baf.v: do_call_row composes the purity rewrite, the method and
+   the allelic split exactly as the Python body does).  Clonal method, a row whose ratio is
+   the mixing model's: cn = n; on the purity-adjusted path (even ploidy) the log2 column is
+   rewritten to the ratio of a pure n-copy sample, without purity it is untouched; where
+   the allelic split is present it adds up to n. *)
+Theorem C01_do_call_clonal :
+  forall k purity hapx female build ts variants with_baf first row v n r x,
+    d_log2 row = Some v -> valid_purity purity -> (0 <= n)%Z ->
+    row_copies k purity hapx female build first (in_row_of row) = (r, x) -> (0 < r)%Z ->
+    d_e row == mix n (mix_purity purity) r x ->
+    exists o, do_call_row MClonal k purity hapx female build ts variants with_baf first row = Some o /\
+      o_cn o = Some n /\
+      (forall p, use_purity purity = Some p -> (0 < k)%Z -> Z.even k = true ->
+         exists q, o_ratio o = Some q /\ q == spec_rescaled n k r min_abs_val) /\
+      (use_purity purity = None -> o_ratio o = None /\ o_log2 o = d_log2 row) /\
+      (forall c1 c2, o_alleles o = Some (Some c1, Some c2) ->
+         (c1 + c2 = n /\ 0 <= c1 <= n /\ 0 <= c2 <= n)%Z).
+Proof. exact do_call_clonal_spec. Qed.
+
+(* row for row, do_call(method="clonal") is the call_row the theorems above speak about *)
+Theorem C01_do_call_is_call_row :
+  forall k purity hapx female build ts variants with_baf first row v,
+    d_log2 row = Some v ->
+    exists o, do_call_row MClonal k purity hapx female build ts variants with_baf first row = Some o /\
+      let c := call_row k purity hapx female build first (in_row_of row) in
+      o_cn o = Some (cn_of c) /\ o_abs o = Some (abs_of c) /\ o_ratio o = ratio_of c /\
+      o_alleles o = (if with_baf || variants
+                     then Some (alleles (abs_of c) (dc_baf purity variants (d_baf row)) (cn_of c)) else None) /\
+      o_log2 o = fst (dc_seen purity row).
+Proof. exact do_call_row_clonal. Qed.
+
+(* the table: one output row per input row, in order, every row classified with the label
+   derived from the FIRST row; the only failure besides a NaN under the clonal method is the
+   assertion on an unsupported genome build, on the purity-adjusted path only *)
+Theorem C01_do_call_rows :
+  forall m k purity hapx female build ts variants with_baf rows out,
+    do_call_model m k purity hapx female build ts variants with_baf rows = DcOk out ->
+    length out = length rows /\
+    Forall2 (fun row o => do_call_row m k purity hapx female build ts variants with_baf (dc_first rows) row = Some o)
+            rows out.
+Proof. exact do_call_model_rows. Qed.
+
+Theorem C01_do_call_assert :
+  forall m k purity hapx female build ts variants with_baf rows,
+    do_call_model m k purity hapx female build ts variants with_baf rows = DcAssert <->
+    exists p b, use_purity purity = Some p /\ build = Some b /\ build_supported b = false.
+Proof. exact do_call_model_assert. Qed.
+
+(* inconsistently named tables (precondition `consistent` of C01_class_table violated): the
+   first row decides which names are sex chromosomes; X / Y rows named in the other style
+   are called as autosomes on the purity-adjusted path, while the no-purity path recognises
+   both styles -- what the harness's edge stream exercises *)
+Theorem C01_mixed_naming :
+  forall build first,
+    (forall chrom lo hi, row_class build first chrom lo hi <> Auto ->
+                         chrom = seen_x first \/ chrom = seen_y first) /\
+    (forall lo hi, row_class build first (unseen_x first) lo hi = Auto /\
+                   row_class build first (unseen_y first) lo hi = Auto) /\
+    (forall k purity p hapx female lo hi e, use_purity purity = Some p ->
+       call_row k purity hapx female build first (unseen_x first, lo, hi, e)
+         = call_row_purity k p hapx female Auto e /\
+       call_row k purity hapx female build first (unseen_y first, lo, hi, e)
+         = call_row_purity k p hapx female Auto e /\
+       row_copies k purity hapx female build first (unseen_x first, lo, hi, e) = (k, k) /\
+       row_copies k purity hapx female build first (unseen_y first, lo, hi, e) = (k, k)) /\
+    (forall k hapx, ref_pure "X" k hapx = ref_pure "chrX" k hapx /\
+                    ref_pure "Y" k hapx = ref_pure "chrY" k hapx /\
+                    ref_pure (unseen_x first) k hapx = ref_pure (seen_x first) k hapx /\
+                    ref_pure (unseen_y first) k hapx = ref_pure (seen_y first) k hapx).
+Proof. exact mixed_naming. Qed.
+
+Example C01_ex_mixed :
+  unseen_x "chr1" = "X"%string /\ unseen_x "1" = "chrX"%string /\
+  row_class None "chr1" "X" 0 100 = Auto /\ row_class None "1" "chrX" 0 100 = Auto /\
+  row_class None "chr1" "chrX" 0 100 = ChrX.
+Proof. exact mixed_naming_example. Qed.
+
+(* PAR membership is inclusive at both ends of both regions, on X and Y, for both builds in
+   any letter case (the coordinates are those of the property's builds) ... *)
+Theorem C01_par_inclusive :
+  forall b lo hi,
+    (lower_str b = "grch37"%string ->
+       (in_par b par_keys_x lo hi = true <->
+          (60000 <= lo /\ hi <= 2699520)%Z \/ (154931043 <= lo /\ hi <= 155260560)%Z) /\
+       (in_par b par_keys_y lo hi = true <->
+          (10000 <= lo /\ hi <= 2649520)%Z \/ (59034049 <= lo /\ hi <= 59363566)%Z)) /\
+    (lower_str b = "grch38"%string ->
+       (in_par b par_keys_x lo hi = true <->
+          (10000 <= lo /\ hi <= 2781479)%Z \/ (155701382 <= lo /\ hi <= 156030895)%Z) /\
+       (in_par b par_keys_y lo hi = true <->
+          (10000 <= lo /\ hi <= 2781479)%Z \/ (56887902 <= lo /\ hi <= 57217415)%Z)).
+Proof. exact par_inclusive. Qed.
+
+(* ... in particular at every PAR end: a bin exactly on the region or touching an end from
+   inside is PAR; one base off at either end, or straddling an end, is not *)
+Theorem C01_par_ends : Forall par_end_cases par_regions.
+Proof. exact par_ends. Qed.
+
 (* hypotheses are satisfiable: a consistently named table, n = 3 at purity 1/2 on a
    male sample's X against a male reference (r = x = 1), ploidy 2 *)
 Example C01_ex_consistent : consistent ChrStyle "chr1" /\ consistent PlainStyle "1".
@@ -129,6 +229,21 @@ Corollary C01_real_corollary_log2_inversion :
     ((r * RealFacts.exp2 (RealFacts.log2 ((p * n + (1 - p) * x) / r)) - x * (1 - p)) / p = n)%R.
 Proof. exact RealFacts.log2_inversion. Qed.
 
+(* the log2 form of C01_rescaled_log2: with v = log2((p*n + (1-p)*x)/r), clipping the inverted
+   copy number at 0, flooring a/k at m and adding 1 on half-ploidy-reference rows gives
+   log2(max(n, m*k)/r), the log2 ratio of a pure n-copy sample against r reference copies *)
+From CNV Require Proofs.CallReal.
+
+Corollary C01_real_corollary_log2_rescaled :
+  forall (n p r x k m : R) (shift : bool),
+    (0 < p)%R -> (0 < r)%R -> (0 < k)%R -> (0 < m)%R -> (0 <= n)%R ->
+    (0 < (p * n + (1 - p) * x) / r)%R ->
+    k = (if shift then 2 * r else r)%R ->
+    (RealFacts.log2 (Rmax (Rmax ((r * RealFacts.exp2 (RealFacts.log2 ((p * n + (1 - p) * x) / r)) - x * (1 - p)) / p) 0 / k) m)
+       + (if shift then 1 else 0)
+     = RealFacts.log2 (Rmax n (m * k) / r))%R.
+Proof. exact CallReal.log2_rescaled. Qed.
+
 (* ---- source tie: the bodies of cnvlib/call.py's scalar functions, translated from the
    Python source on every run (Gen/FnCall.v, tools/py2v_fn.py), ARE the model functions
    the theorems above speak about. *)
@@ -147,3 +262,17 @@ Proof. exact fn_abs_pure_all. Qed.
 Theorem C01_source_ref_pure :
   forall chrom k hapx, fn_reference_copies_pure chrom k hapx = ref_pure chrom k hapx.
 Proof. exact fn_ref_pure_eq. Qed.
+
+(* log2_ratios as written (np.log2(np.maximum(absolutes / ploidy, min_abs_val)), `+= 1.0` under
+   the chr_x_filter mask if the reference is haploid-X, `+= 1.0` under the chr_y_filter mask),
+   read per element with its default arguments, is the model's `rescaled` in ratio space:
+   for every oracle pair with exp2 (log2 y) == y on y > 0 and exp2 (v + 1) == 2 * exp2 v.
+   on_x_mask / on_y_mask: a row of class ChrX / ChrY is what the two masks select. *)
+Theorem C01_source_log2_ratios :
+  forall (exp2 log2 : Q -> Q),
+    (forall y, 0 < y -> exp2 (log2 y) == y) ->
+    (forall v, exp2 (v + 1) == 2 * exp2 v) ->
+    forall a k hapx c,
+      exp2 (fn_log2_ratios log2 a k hapx min_abs_val false (on_x_mask c) (on_y_mask c))
+      == rescaled a k (shifted hapx c).
+Proof. exact fn_log2_ratios_eq. Qed.
